@@ -163,7 +163,14 @@ class VG:
                 self.hit('assign-whole'); ss.append(ExprS(Assign(v, self.expr(v.ty, vars_, 2))))
         ret = r.choice([v.ty for v in vars_ if isinstance(v.ty, (Vec, Mat))] + [FLOAT, INT])
         ss.append(Return(self.expr(ret, vars_, 2)))
-        return Module([], [], [Func("f", params, ret, Block(ss), True)])
+        funcs = []
+        if self.o['matrices'] and r.random() < .4:
+            # a second (and third) function with row-wise matrix operations: what lowering keeps per module must be per function
+            mt = r.choice(MATS)
+            a, b, sv = Var("ma", mt, 'arg', 0), Var("mb", mt, 'arg', 1), Var("ms", FLOAT, 'arg', 2)
+            body = r.choice([Bin('-', Bin('+', a, b), Bin('*', a, sv)), Bin('+', Bin('/', a, Lit(2.0, FLOAT)), Bin('*', sv, b)), Bin('-', a, b)])
+            funcs.append(Func("g", [("ma", mt), ("mb", mt), ("ms", FLOAT)], mt, Block([Return(body)]), False)); self.hit('second-function-matrix-rows')
+        return Module([], [], funcs + [Func("f", params, ret, Block(ss), True)])
 
 
 def vec_inputs(rng, module, count=3):
